@@ -280,6 +280,8 @@ def handle (op : String) (fs : List (String × String)) : String :=
   if op == "shape.readsafe" then "ok" else
   -- D: sfnt.Layouter.Layout with a glyph ID that cmap / GSUB delivers: no panic, text kept, the
   -- advance of a glyph beyond the font is 0 (`Font.GlyphWidth` out of range), else its width
+  -- D: histories of texts on ONE sfnt.Layouter: every result equals that of a fresh Layouter
+  if op == "shape.layoutseq" then "same" else
   if op == "shape.layout" then
     match (getField fs "ng").bind String.toNat?, (getField fs "target").bind String.toNat?,
       (getField fs "w").bind String.toInt? with
